@@ -6,14 +6,19 @@
 (* renderable whose frame i is a rw x rh block of the letter chr(65+i).     *)
 (*                                                                         *)
 (*   still:  [W hide] R W(padded frame) F                                    *)
-(*           | clean-up: W(LF) [W show] F                                    *)
+(*           | clean-up: W(LF) [W show] F Z                                  *)
 (*   anim:   [W hide] R W(padded frame 0) F W(rewind0) F                     *)
 (*           { R S W(frame i, LF -> LF CUF(l)) F W(rewind) F }*  S           *)
-(*           | clean-up: W(CUD(h+pb-1)) F W(LF) [W show] F                   *)
+(*           | clean-up: W(CUD(h+pb-1)) F W(LF) [W show] F Z                 *)
 (*   rewind0 = CR CUU(h+pb-1) CUF(l)      rewind = CR CUU(h-1) CUF(l)        *)
 (*                                                                         *)
-(* (W write, F flush, R render, S sleep).  MC_Draw composes the program     *)
-(* with Terminal.tla and checks C06 at the design level - every frame is    *)
+(* (W write, F flush, R render, S sleep, Z = the render data generated for  *)
+(* this draw is finalized: part of draw()'s own clean-up, so it is owed     *)
+(* after a fault at ANY body operation k - including k = 1, the hide-cursor *)
+(* write, before any frame has been rendered; WHERE in the clean-up it      *)
+(* happens is the implementation's business: FinalizedBeforeReturn counts   *)
+(* it, the choreography comparison ignores its position).                   *)
+(* MC_Draw composes the program with Terminal.tla and checks C06 at the design level - every frame is    *)
 (* written over the cells of the first one (SamePlaceEveryFrame), nothing   *)
 (* outside the padded box is touched, and the run EndsBelow the box with    *)
 (* the cursor visible - for every size, padding, frame count, loop count,   *)
@@ -82,7 +87,7 @@ Body(c) ==
         ELSE <<Op("R"), W(PaddedFrame(c, 0)), Op("F")>>)
 
 AnimCleanup(c) == <<W(MoveN("cud", c.rh + c.b - 1)), Op("F")>>
-DrawCleanup(c) == <<W(<<Simple("lf")>>)>> \o Opt(c.tty, <<W(<<Show>>)>>) \o <<Op("F")>>
+DrawCleanup(c) == <<W(<<Simple("lf")>>)>> \o Opt(c.tty, <<W(<<Show>>)>>) \o <<Op("F"), Op("Z")>>
 Cleanup(c, firstWritten) ==
   (IF Animated(c) /\ firstWritten THEN AnimCleanup(c) ELSE <<>>) \o DrawCleanup(c)
 
@@ -95,6 +100,10 @@ Interrupted(c, k, p) ==
   LET b == Body(c)
       cut == IF b[k].op = "W" THEN <<W(SubSeq(b[k].toks, 1, p))>> ELSE <<>>
   IN SubSeq(b, 1, k - 1) \o cut \o Cleanup(c, FirstWrittenAfter(c, k))
+
+\* C07 "the render data is finalized": every run - clean, or cut at any body operation k after
+\* any delivered prefix - finalizes the render data exactly once before draw() is over
+Finalizations(prog) == Cardinality({i \in 1..Len(prog) : prog[i].op = "Z"})
 
 \* flatten to the token stream the terminal receives
 RECURSIVE Flat(_, _)
